@@ -5,6 +5,7 @@ CONSTANTS
   Extras = {"x1", "x2"}
   Matrix = "code"
   ElseKey = FALSE
+  NameKeys = "named"
   Unannotated = FALSE
   Emit = FALSE
 INVARIANT Refines
